@@ -3,3 +3,6 @@ pub fn any_bool() -> bool { false }
 pub fn any_str() -> String { String::new() }
 pub fn assume(_c: bool) {}
 pub fn check(c: bool) { assert!(c) }
+pub struct Handle(pub usize);
+pub fn spawn<F: FnOnce() -> bool + 'static>(_f: F) -> Handle { Handle(0) }
+pub fn join(_h: Handle) -> bool { false }
